@@ -29,6 +29,7 @@ def declare(rep):
     rep.rule("C01.split-winding", "split_edge: the sub-faces of (x,a,b) keep its orientation: then-branch faces are even, else-branch faces odd permutations of (x,a,b) with the midpoint in place of a or b; the test uses the cached normal of the face x belongs to", floor=2)
     rep.rule("C01.swap-winding", "swap_edge: every new face is wound against a surviving neighbour that shares an edge with it", floor=2)
     rep.rule("C01.normal-follows-winding", "whenever the node order of a face may change (swap_nodes, check_face_winding_order, replace_node) the cached normal/area of that face is refreshed before control leaves the mesh classes", floor=3)
+    rep.rule("C01.worklist-filter", "merge_edge: an edge copy enters the work list only if it mentions none of the nodes replaced and none of the faces deleted by this merge; both insertion sites apply the same filter", floor=2)
     rep.rule("C01.rebase", "rebase regenerates the edge set whenever a queue was non-empty; renumbers faces and nodes; remaps node ids of faces", floor=3)
 
 
@@ -112,6 +113,7 @@ def run(rep, prog, tier):
         except Inconsistent as x:
             rep.violation("C01.euler-ledger", prog, fn, x.node, "%s: paths disagree" % qn.split("::")[1], "%s: %s" % (qn, x.msg))
     normal_follows_winding(rep, prog)
+    worklist_filter(rep, prog)
     split_winding(rep, prog)
     swap_winding(rep, prog)
     pairing(rep, prog)
@@ -574,3 +576,48 @@ def normal_follows_winding(rep, prog):
         callers = [g for g in fns if isinstance(g.get("body"), dict) and any(is_call(c) and c.get("callee") == qn for c in walk(g["body"])) and g["qn"] != qn]
         if not callers and qn.split("::")[0] in ("cell",) and qn not in ("cell::check_face_winding_order",):
             pass
+
+
+def _conjuncts(e):
+    e = strip(e)
+    if e.get("k") == "BinaryOperator" and e.get("op") == "&&":
+        return _conjuncts(e["c"][0]) + _conjuncts(e["c"][1])
+    return [render(e).replace(" ", "")]
+
+
+def worklist_filter(rep, prog):
+    fn = prog.fn("local_mesh_refiner::merge_edge")
+    fi = prog.index(fn)
+    wl = [p_ for p_ in fn["params"] if "set" in p_["t"] and "edge" in p_["t"]]
+    if len(wl) != 1:
+        raise AnalysisBroken("merge_edge: work-list parameter not found")
+    gone_nodes = [render(call_args(c)[1]).replace(" ", "") for c in walk(fn["body"]) if is_call(c) and c.get("callee") == "cell::replace_node"]
+    gone_faces = [render(call_args(c)[0]).replace(" ", "") for c in walk(fn["body"]) if is_call(c) and c.get("callee") == "cell::delete_face"]
+    if len(gone_nodes) != 2 or len(gone_faces) != 2:
+        raise AnalysisBroken("merge_edge: %d replace_node / %d delete_face calls" % (len(gone_nodes), len(gone_faces)))
+    sites = []
+    for c in walk(fn["body"]):
+        if c.get("k") == "CXXMemberCallExpr" and c.get("callee", "").endswith("::insert") and render(call_obj(c)) == wl[0]["name"]:
+            lam = fi.in_lambda(c)
+            if lam is None:
+                continue
+            ev = render(call_args(c)[0]).replace(" ", "")
+            conj = []
+            for p_, slot, ch in fi.ancestors(c):
+                if p_ is lam:
+                    break
+                if p_.get("k") == "IfStmt" and slot == "then":
+                    conj += _conjuncts(p_["cond"])
+            sites.append((c, ev, conj))
+    if len(sites) < 2:
+        raise AnalysisBroken("merge_edge: %d filtered insertions into the work list" % len(sites))
+    for c, ev, conj in sites:
+        want = ["!%s.has_node(%s)" % (ev, n) for n in gone_nodes] + ["!%s.has_face(%s)" % (ev, f) for f in gone_faces]
+        missing = [w for w in want if w not in conj]
+        if missing:
+            rep.violation("C01.worklist-filter", prog, fn, c, "work-list insertion not filtered by %s" % ",".join(m.split("(")[-1].rstrip(")") for m in missing),
+                          "merge_edge line %s inserts the edge copy %s into the work list without requiring %s: copies that still carry a node replaced or a face deleted by this merge are stale (set::insert does not overwrite them with the corrected copy) and a later operation on them opens the surface" % (c.get("l"), ev, " && ".join(missing)))
+        else:
+            rep.ok("C01.worklist-filter", prog, fn, c, "insertion guarded by " + " && ".join(want))
+    if len({tuple(sorted(cj)) for _, _, cj in sites}) != 1:
+        rep.violation("C01.worklist-filter", prog, fn, sites[1][0], "the two insertion sites filter differently", "merge_edge: the filters of the work-list insertions differ: %s" % [cj for _, _, cj in sites])
